@@ -42,6 +42,13 @@ Judge(e, s) ==
              ELSE IF ResOf(e) # res2 THEN "violation:results-changed"
              ELSE "ok"
     IN [v |-> v, s |-> s2]
+  ELSE IF e.op = "badcall" THEN
+    LET v == IF ~Has(e.out, "exc") THEN "violation:accepted-formula-outside-logic"
+             ELSE IF e.out.exc # "TypeError" THEN "violation:wrong-exception " \o e.out.exc
+             ELSE IF ObjectsIntact(e, s) # "ok" THEN ObjectsIntact(e, s) \o " (after a rejected call)"
+             ELSE IF ResOf(e) # s.res THEN "violation:results-changed"
+             ELSE "ok"
+    IN [v |-> v, s |-> s]
   ELSE IF e.op = "mutate" THEN
     LET old == s.res[e.r]
         new == CASE e.kind = "clear" -> {}
